@@ -111,8 +111,8 @@ case('c12-se2-unwrap', ['C12'], ['C12.propagate'],
 
 # ---------------------------------------------------------------- C20
 case('c20-py-fail-open', ['C20'], ['C20.validity'],
-     (PYV, "impl StateValidityChecker<OxmplSO2State> for PyStateValidityChecker {\n    fn is_valid(&self, state: &OxmplSO2State) -> bool {\n        Python::with_gil(|py| {\n            let result: PyResult<bool> = (move || {\n                let py_state = Py::new(py, PySO2State(Arc::new(state.clone())))?;\n                let args = (py_state,);\n                let result = self.callback.call1(py, args)?;\n                result.extract(py)\n            })();\n            match result {\n                Ok(is_valid) => is_valid,\n                Err(e) => {\n                    e.print(py);\n                    false",
-           "impl StateValidityChecker<OxmplSO2State> for PyStateValidityChecker {\n    fn is_valid(&self, state: &OxmplSO2State) -> bool {\n        Python::with_gil(|py| {\n            let result: PyResult<bool> = (move || {\n                let py_state = Py::new(py, PySO2State(Arc::new(state.clone())))?;\n                let args = (py_state,);\n                let result = self.callback.call1(py, args)?;\n                result.extract(py)\n            })();\n            match result {\n                Ok(is_valid) => is_valid,\n                Err(e) => {\n                    e.print(py);\n                    true"))
+     (PYV, "impl StateValidityChecker<OxmplSO2State> for PyStateValidityChecker {\n    fn is_valid(&self, state: &OxmplSO2State) -> bool {\n        Python::with_gil(|py| {\n            let result: PyResult<bool> = (move || {\n                let py_state = Py::new(py, PySO2State(Arc::new(state.clone())))?;\n                let args = (py_state,);\n                let result = self.callback.call1(py, args)?;\n                result.extract(py)\n            })();\n            match result {\n                Ok(is_valid) => is_valid,\n                Err(e) => {\n                    e.display(py);\n                    false",
+           "impl StateValidityChecker<OxmplSO2State> for PyStateValidityChecker {\n    fn is_valid(&self, state: &OxmplSO2State) -> bool {\n        Python::with_gil(|py| {\n            let result: PyResult<bool> = (move || {\n                let py_state = Py::new(py, PySO2State(Arc::new(state.clone())))?;\n                let args = (py_state,);\n                let result = self.callback.call1(py, args)?;\n                result.extract(py)\n            })();\n            match result {\n                Ok(is_valid) => is_valid,\n                Err(e) => {\n                    e.display(py);\n                    true"))
 case('c20-py-goal-default-true', ['C20'], ['C20.goal'],
      (PYG, "                .and_then(|res| res.extract(py))\n                .unwrap_or(false)", "                .and_then(|res| res.extract(py))\n                .unwrap_or(true)"))
 case('c20-py-truthy', ['C20'], ['C20.goal'],
